@@ -76,7 +76,7 @@ def common_params(rng, strat, ind, light=False):
         "strat": strat, "T": ind, "seed": rng.below(1 << 30), "individuals": individuals,
         "min_individuals": rng.choice([2, 2, 3, individuals]),
         "tournament": tour, "mate_zone": mz, "elitism": rng.choice([1, 1, 0]),
-        "brood": rng.choice([1, 1, 2, 3]),
+        "brood": rng.choice([1, 1, 2, 3]), "fast": 0,
         "p_cross": rng.choice([0.0, 0.3, 0.9, 1.0]) if strat != "de" else rng.choice([0.3, 0.9, 1.0]),
         "p_mutation": rng.choice([0.0, 0.04, 0.3, 1.0]),
         "cache": rng.choice([0, 0, 7, 10]),
@@ -84,6 +84,11 @@ def common_params(rng, strat, ind, light=False):
         "age_gap": rng.choice([1, 2, 3, 5]),
         "p_same": rng.choice([0.0, 0.5, 0.75, 1.0]),
     }
+    if p["brood"] > 1 and rng.chance(0.75):
+        # brood recombination ranks its candidates with evaluator::fast(): make it a really different (coarser)
+        # score, as the sum-of-errors evaluators' is on >= 100 examples – an approximation that leaks into the
+        # fitness (through the evaluation cache, say) breaks best.fitness == eval(best.solution)
+        p["fast"] = rng.choice([2, 7])
     if strat == "alps":
         p["layers"] = rng.choice([2, 3, 4])
         p["tournament"] = min(max(p["tournament"], 1), individuals)
@@ -167,14 +172,33 @@ def gen_search(rng, n):
     return out
 
 
+def gen_srcrun(rng, n):
+    """whole src_search runs: sum-of-errors evaluator on >= 100 rows (fast() skips examples) x brood recombination
+    x evaluation cache, judged against an independent cache-less evaluator after every generation"""
+    out = []
+    for i in range(n):
+        strat, eva = [("std", "mae"), ("std", "rmae"), ("alps", "mae"), ("std", "mse")][i % 4]
+        individuals = rng.choice([12, 20, 30])
+        p = {"strat": strat, "eva": eva, "seed": rng.below(1 << 30), "rows": rng.choice([100, 120, 160, 250, 60]),
+             "individuals": individuals, "min_individuals": 2, "tournament": rng.choice([2, 3]),
+             "mate_zone": individuals, "elitism": rng.choice([1, 1, 0]), "brood": rng.choice([2, 3, 4, 1]),
+             "p_cross": 0.9, "p_mutation": 0.04, "cache": rng.choice([8, 12, 8, 0]),
+             "generations": rng.choice([3, 5]), "layers": 1 if strat == "std" else 2, "age_gap": 2, "p_same": 0.75}
+        out.append(fmt("srcrun", p))
+    return out
+
+
 UNDEF_P = dbits(-1.0)
 
 
 def gen_tune(rng, n):
     """user environments: mostly consistent requests with some parameters open."""
     out = []
+    # src-X: src_search with the validation strategy X installed before the tuning (an open dss /
+    # validation_percentage is filled with its default exactly when dss / holdout is installed: fix 237a8f6)
     classes = [("base", "std"), ("base", "alps"), ("src", "std"), ("src", "alps"), ("ga", "std"),
-               ("de", "std"), ("ga", "alps")]
+               ("de", "std"), ("ga", "alps"), ("src-holdout", "std"), ("src-dss", "std"), ("src-other", "std"),
+               ("src-holdout", "alps"), ("src-dss", "alps")]
     # the systematic part: exactly one parameter set, everything else open
     singles = []
     for ind in (4, 5, 7, 9, 10, 11, 50, 100, 200):
@@ -191,7 +215,8 @@ def gen_tune(rng, n):
         singles.append({"patch": pl})
     singles += [{"layers": 1}, {"layers": 3}, {"elitism": 0}, {"elitism": 1}, {"brood": 4},
                 {"generations": 7}, {"max_stuck": 3}, {"p_mut": dbits(0.0)}, {"p_mut": dbits(1.0)},
-                {"p_cross": dbits(0.5)}, {}]
+                {"p_cross": dbits(0.5)}, {}, {"dss": 3}, {"validation": 35}, {"validation": 0},
+                {"dss": 2, "validation": 10}]
     cases = [(c, s) for c in classes for s in singles]
     for _ in range(n):
         s = {}
@@ -204,12 +229,12 @@ def gen_tune(rng, n):
                         ("dss", [0, 1, 3]), ("validation", [0, 20, 99, 100]),
                         ("age_gap", [0, 1, 20]), ("p_same", [dbits(-0.5), dbits(0.0), dbits(0.75), dbits(1.0), dbits(1.25)]),
                         ("team", [0, 1, 3])):
-            if rng.chance(0.3 if k not in ("age_gap", "p_same", "team", "dss", "validation") else 0.1):
+            if rng.chance(0.3 if k not in ("age_gap", "p_same", "team") else 0.1):
                 s[k] = rng.choice(vals)
         cases.append((rng.choice(classes), s))
     for (cls, es), s in cases:
         nterm = s.get("nterm", rng.choice([1, 2, 3, 6, 40]))
-        dsize = rng.choice([3, 8, 9, 20, 150]) if cls == "src" else 0
+        dsize = rng.choice([3, 8, 9, 20, 150]) if cls.startswith("src") else 0
         f = [s.get("code", 0), s.get("patch", 0), s.get("elitism", 2), s.get("p_mut", UNDEF_P),
              s.get("p_cross", UNDEF_P), s.get("brood", 0), s.get("layers", 0), s.get("individuals", 0),
              s.get("min_individuals", 0), s.get("tournament", 0), s.get("mate_zone", 0),
@@ -438,7 +463,7 @@ def run(chk, replay=None):
         exes = cxx.result()          # (raises what build_vita / build_harness raised)
     finally:
         bg.shutdown(wait=False)
-    exe_for = lambda case: exes[0] if case.split()[0] in ("comp", "run", "search") else exes[1]
+    exe_for = lambda case: exes[0] if case.split()[0] in ("comp", "run", "search", "srcrun") else exes[1]
 
     lap("build")
     # ---- cases -----------------------------------------------------------
@@ -461,6 +486,7 @@ def run(chk, replay=None):
         cases += gen_comp(rng, 300 if not thorough else 3000, 100 if not thorough else 200)
         cases += gen_runs(rng, 300 if not thorough else 3000, thorough)     # each case = 1..3 runs on one object
         cases += gen_search(rng, 40 if not thorough else 400)
+        cases += gen_srcrun(rng, 8 if not thorough else 80)
 
     # ---- harness (sharded) + driver ----------------------------------------
     # shards: interleaved so that each gets a similar mix; one harness binary per shard
@@ -510,8 +536,15 @@ def run(chk, replay=None):
             if ci not in seen_case:
                 seen_case.add(ci)
                 chk.count("case:" + kind)
+                if kind == "srcrun":
+                    kv = dict(x.split("=", 1) for x in case.split()[1:])
+                    chk.count(f"srcrun:brood={'>1' if kv['brood'] != '1' else '1'},cache={'on' if kv['cache'] != '0' else 'off'},"
+                              f"rows={'>=100' if int(kv['rows']) >= 100 else '<100'}")
                 if kind in ("run", "comp", "search"):
                     kv = dict(x.split("=", 1) for x in case.split()[1:])
+                    if kind == "run":
+                        chk.count("run:brood>1,cache=on,fast!=exact" if kv["brood"] != "1" and kv["cache"] != "0"
+                                  and kv.get("fast", "0") != "0" else "run:other-evaluator-mix")
                     chk.count(f"{kind}:{kv['strat']}/{kv['T']}")
                     chk.count(f"{kind}:cache={'on' if kv['cache'] != '0' else 'off'}")
                     chk.count(f"{kind}:elitism={kv['elitism']}")
